@@ -218,7 +218,10 @@ def from_meshio(m,
 
     # attempt parsing skfem tags
     if m.cell_data:
-        _boundaries, _subdomains = mtmp._decode_cell_data(m.cell_data)
+        # the tags refer to the elements as they are in the file whereas
+        # mtmp might have sorted the vertices of the elements
+        _, t2f = mtmp.build_entities(t, mtmp.refdom.facets)
+        _boundaries, _subdomains = mtmp._decode_cell_data(m.cell_data, t2f)
         boundaries.update(_boundaries)
         subdomains.update(_subdomains)
 
